@@ -495,3 +495,205 @@ Proof. intros H. apply (run_monitors _ _ _ H). Qed.
 
 Theorem mon_assigner_call_sound tr s os : run (init true) tr = Some (s, os) -> mon_assigner_call (env_of tr) os = true.
 Proof. intros H. apply (run_monitors _ _ _ H). Qed.
+
+(** ** (c) *)
+Definition has_svc (c : conn) : bool := match c_svc c with Some _ => true | None => false end.
+Definition b2n (b : bool) : nat := if b then 1 else 0.
+
+Lemma filter_len_upd {A} (p : A -> bool) : forall cs k c c', nth_error cs k = Some c ->
+  length (filter p (upd_nth k (fun _ => c') cs)) + b2n (p c) = length (filter p cs) + b2n (p c').
+Proof.
+  induction cs as [|x cs IH]; intros [|k] c c' H; cbn in H; try discriminate.
+  - injection H as ->. cbn. destruct (p c), (p c'); cbn; lia.
+  - specialize (IH k c c' H). cbn. destruct (p x); cbn; lia.
+Qed.
+
+Lemma filter_len_le {A} (p : A -> bool) l : length (filter p l) <= length l.
+Proof. induction l as [|x l IH]; cbn; [lia|]. destruct (p x); cbn; lia. Qed.
+
+Lemma step_conns_len s l s' os : step s l = Some (s', os) ->
+  length (conns s') = length (conns s) + b2n (is_accept l).
+Proof.
+  intros H. destruct l; inv_step H; cbn [conns set_conn set_conns set_next set_flog set_closed set_wg set_acc set_ctx is_accept b2n];
+    try (destruct (fix_F10 _)); cbn [conns set_closed]; rewrite ?length_upd, ?app_length; cbn; lia.
+Qed.
+
+Lemma n_accepts_env_snoc tr l : n_accepts (env_of (tr ++ [l])) = n_accepts (env_of tr) + b2n (is_accept l).
+Proof.
+  unfold n_accepts, env_of. rewrite !filter_app, app_length. f_equal. cbn.
+  destruct l; reflexivity.
+Qed.
+
+Lemma reach_counts : forall tr s, reach tr s ->
+  length (conns s) = n_accepts (env_of tr) /\ next_svc s = length (filter has_svc (conns s)).
+Proof.
+  apply reach_ind; [split; reflexivity|]. intros tr s l s' os Rch [L N] H.
+  split; [rewrite (step_conns_len _ _ _ _ H), n_accepts_env_snoc; lia|].
+  pose proof (reach_inv _ _ Rch) as I. destruct (inv_facts _ _ I) as (_ & AccNone & _).
+  assert (Upd : forall k c c', get s k = Some c -> upd1 s s' k c' -> has_svc c' = has_svc c ->
+            length (filter has_svc (conns s')) = length (filter has_svc (conns s))).
+  { intros k c c' G U E. unfold upd1 in U. rewrite U. pose proof (filter_len_upd has_svc _ _ _ c' G) as F.
+    rewrite E in F. lia. }
+  destruct (step_view _ _ _ _ H) as
+    [-> Cn Nx Rt | -> Cn Nx Rt | k c c' -> G U Sv Pf Nx Rt | k a c c' -> G U Sv Ph Pr Us Nx Rt
+     | k c c' -> G U Ph Sv Ph' Nx Rt | k c c' i ok -> G U Ph Sv Sv' Ph' Nx Rt
+     | k c c' i a st -> G U Ph Sv As Sv' Ph' Nx Rt | v e -> Cn Ac Wg Ev Ac' Nx]; rewrite Nx.
+  - rewrite Cn. exact N.
+  - rewrite Cn, filter_app, app_length. cbn. lia.
+  - rewrite (Upd k c c'); auto. unfold has_svc. rewrite Sv. reflexivity.
+  - rewrite (Upd k c c'); auto. unfold has_svc. rewrite Sv. reflexivity.
+  - unfold upd1 in U. rewrite U. pose proof (filter_len_upd has_svc _ _ _ c' G) as F.
+    unfold has_svc at 2 4 in F. rewrite Sv, (AccNone _ _ G Ph) in F. cbn in F. lia.
+  - rewrite (Upd k c c'); auto. unfold has_svc. rewrite Sv, Sv'. reflexivity.
+  - rewrite (Upd k c c'); auto. unfold has_svc. rewrite Sv, Sv'. reflexivity.
+  - rewrite Cn. exact N.
+Qed.
+
+Lemma count_up_seq : forall n a, count_up a (seq a n) = true.
+Proof. induction n as [|n IH]; intros a; cbn; auto. rewrite Nat.eqb_refl. apply IH. Qed.
+
+Lemma count_up_is_seq : forall l a, count_up a l = true -> l = seq a (length l).
+Proof.
+  induction l as [|x l IH]; intros a H; cbn in *; auto. apply andb_true_iff in H as [E H].
+  apply Nat.eqb_eq in E. subst x. f_equal. apply IH; auto.
+Qed.
+
+Theorem newsvc_count_le_accepts tr s os : run (init true) tr = Some (s, os) ->
+  newsvc_of os = seq 0 (length (newsvc_of os)) /\ length (newsvc_of os) <= n_accepts (env_of tr).
+Proof.
+  intros H. destruct (run_accounts _ _ _ H) as (N & _). rewrite N, seq_length. split; auto.
+  destruct (reach_counts tr s (ex_intro _ os H)) as [L M]. rewrite <- L, M. apply filter_len_le.
+Qed.
+
+Theorem mon_fresh_service_sound tr s os : run (init true) tr = Some (s, os) -> mon_fresh_service (env_of tr) os = true.
+Proof.
+  intros H. destruct (newsvc_count_le_accepts _ _ _ H) as [E L]. unfold mon_fresh_service.
+  apply andb_true_iff. split; [rewrite E; apply count_up_seq|apply Nat.leb_le; exact L].
+Qed.
+
+(* the order-free consequence, on any pair of sequences *)
+Lemma mem_nat_in x l : mem_nat x l = true <-> In x l.
+Proof.
+  induction l as [|y l IH]; cbn; [split; [discriminate|tauto]|].
+  rewrite orb_true_iff, Nat.eqb_eq, IH. split; intros [H|H]; auto.
+Qed.
+
+Lemma nodup_nat_seq : forall n a, nodup_nat (seq a n) = true.
+Proof.
+  induction n as [|n IH]; intros a; cbn; auto. rewrite IH, andb_true_r.
+  destruct (mem_nat a (seq (S a) n)) eqn:M; auto. apply mem_nat_in, in_seq in M. lia.
+Qed.
+
+Lemma mon_fresh_service_unordered_of env os : mon_fresh_service env os = true -> mon_fresh_service_unordered env os = true.
+Proof.
+  unfold mon_fresh_service, mon_fresh_service_unordered. intros H. apply andb_true_iff in H as [C L].
+  rewrite L, andb_true_r. apply count_up_is_seq in C. set (l := newsvc_of os) in *. clearbody l.
+  remember (length l) as n eqn:En. clear En. subst l. rewrite nodup_nat_seq. cbn [andb].
+  apply forallb_forall. intros i Hi. apply in_seq in Hi. apply Nat.ltb_lt. lia.
+Qed.
+
+Theorem mon_fresh_service_unordered_sound tr s os : run (init true) tr = Some (s, os) ->
+  mon_fresh_service_unordered (env_of tr) os = true.
+Proof. intros H. apply mon_fresh_service_unordered_of. eapply mon_fresh_service_sound; eauto. Qed.
+
+(** ** of the environment sequence only the number of Accepts and the presence of AcceptErr EOther matter: in
+    particular the closing error that an accepter honouring the context yields by itself (a label of the model, no
+    line of a log) can be left out *)
+Definition mon_all (env : list label) (os : list obs) : bool :=
+  mon_finish_once env os && mon_return_last env os && mon_fresh_service env os && mon_assigner_call env os.
+
+Lemma mon_env_irrelevant env env' os : n_accepts env = n_accepts env' -> has_other env = has_other env' ->
+  mon_finish_once env os = mon_finish_once env' os /\ mon_return_last env os = mon_return_last env' os /\
+  mon_fresh_service env os = mon_fresh_service env' os /\
+  mon_fresh_service_unordered env os = mon_fresh_service_unordered env' os /\
+  mon_assigner_call env os = mon_assigner_call env' os.
+Proof.
+  intros A O. unfold mon_return_last, mon_fresh_service, mon_fresh_service_unordered. rewrite A, O. repeat split.
+Qed.
+
+Definition not_closing (l : label) : bool := match l with AcceptErr EClosing => false | _ => true end.
+Lemma drop_closing_same env : n_accepts (filter not_closing env) = n_accepts env /\
+  has_other (filter not_closing env) = has_other env.
+Proof.
+  unfold n_accepts, has_other. induction env as [|l env [IH1 IH2]]; [split; reflexivity|].
+  destruct l; try destruct e; cbn in *; rewrite ?IH1, ?IH2; split; reflexivity.
+Qed.
+
+Theorem mon_all_sound tr s os : run (init true) tr = Some (s, os) ->
+  mon_all (env_of tr) os = true /\ mon_all (filter not_closing (env_of tr)) os = true.
+Proof.
+  intros H.
+  assert (A : mon_all (env_of tr) os = true).
+  { unfold mon_all. rewrite (mon_finish_once_sound _ _ _ H), (mon_return_last_sound _ _ _ H),
+      (mon_fresh_service_sound _ _ _ H), (mon_assigner_call_sound _ _ _ H). reflexivity. }
+  split; auto. destruct (drop_closing_same (env_of tr)) as [N O].
+  destruct (mon_env_irrelevant _ _ os N O) as (E1 & E2 & E3 & _ & E5). unfold mon_all in *. congruence.
+Qed.
+
+(** * Examples *)
+Definition obs_of_run (tr : list label) : list obs := match run (init true) tr with Some (_, os) => os | None => [] end.
+
+(* non-vacuity: two connections (one served with a call in flight when the context ends, one whose Assigner fails),
+   Loop returns nil; and a run in which the accepter fails with another error and Loop returns it *)
+Example monitors_nonvacuous :
+  run (init true) ex_trace <> None /\
+  obs_of_run ex_trace = [ONewSvc 0; OAssigner 0 true; OCall 0 0; ONewSvc 1; OAssigner 1 false;
+                         OFinish 0 0 StStopped; OReturn RNil] /\
+  n_accepts (env_of ex_trace) = 2 /\ has_other (env_of ex_trace) = false /\
+  mon_finish_once (env_of ex_trace) (obs_of_run ex_trace) = true /\
+  mon_return_last (env_of ex_trace) (obs_of_run ex_trace) = true /\
+  mon_fresh_service (env_of ex_trace) (obs_of_run ex_trace) = true /\
+  mon_fresh_service_unordered (env_of ex_trace) (obs_of_run ex_trace) = true /\
+  mon_assigner_call (env_of ex_trace) (obs_of_run ex_trace) = true /\
+  run (init true) exm_trace <> None /\
+  obs_of_run exm_trace = [ONewSvc 0; OAssigner 0 true; OFinish 0 0 StClosed; OReturn RErr] /\
+  has_other (env_of exm_trace) = true /\
+  mon_all (env_of exm_trace) (obs_of_run exm_trace) = true /\
+  mon_all (filter not_closing (env_of ex_trace)) (obs_of_run ex_trace) = true.
+Proof. vm_compute. repeat split; try reflexivity; discriminate. Qed.
+
+(* sensitivity: hand-made observation lists on which the monitors are false *)
+Example mon_finish_once_sensitive :
+  (* twice *)
+  mon_finish_once [] [ONewSvc 0; OAssigner 0 true; OFinish 0 0 StClosed; OFinish 0 0 StClosed] = false /\
+  (* without / before its Assigner *)
+  mon_finish_once [] [ONewSvc 0; OFinish 0 0 StClosed] = false /\
+  mon_finish_once [] [ONewSvc 0; OFinish 0 0 StClosed; OAssigner 0 true] = false /\
+  (* after the Assigner failed *)
+  mon_finish_once [] [ONewSvc 0; OAssigner 0 false; OFinish 0 0 StClosed] = false /\
+  (* with the assigner of another instance *)
+  mon_finish_once [] [ONewSvc 0; OAssigner 0 true; ONewSvc 1; OAssigner 1 true; OFinish 0 1 StClosed] = false.
+Proof. vm_compute. repeat split; reflexivity. Qed.
+
+Example mon_return_last_sensitive :
+  mon_return_last [AcceptErr EClosing] [OReturn RNil; OReturn RNil] = false /\
+  mon_return_last [Accept 0; AcceptErr EClosing] [ONewSvc 0; OAssigner 0 true; OReturn RNil; OFinish 0 0 StStopped] = false /\
+  mon_return_last [Accept 0; AcceptErr EClosing] [ONewSvc 0; OAssigner 0 true; OReturn RNil] = false /\
+  mon_return_last [Accept 0; AcceptErr EClosing] [OReturn RNil; ONewSvc 0] = false /\
+  mon_return_last [Accept 0; AcceptErr EClosing] [ONewSvc 0; OReturn RNil; OAssigner 0 false] = false /\
+  mon_return_last [AcceptErr EOther] [OReturn RNil] = false /\
+  mon_return_last [AcceptErr EClosing] [OReturn RErr] = false /\
+  mon_return_last [CtxEnd] [OReturn RErr] = false /\
+  (* the instance whose Assigner failed needs no Finish *)
+  mon_return_last [Accept 0; AcceptErr EOther] [ONewSvc 0; OAssigner 0 false; OReturn RErr] = true.
+Proof. vm_compute. repeat split; reflexivity. Qed.
+
+Example mon_fresh_service_sensitive :
+  mon_fresh_service [Accept 0; Accept 1] [ONewSvc 0; ONewSvc 0] = false /\
+  mon_fresh_service [Accept 0; Accept 1] [ONewSvc 1] = false /\
+  mon_fresh_service [Accept 0] [ONewSvc 0; OAssigner 0 true; ONewSvc 1] = false /\
+  mon_fresh_service [Accept 0; Accept 1] [ONewSvc 1; ONewSvc 0] = false /\
+  mon_fresh_service_unordered [Accept 0; Accept 1] [ONewSvc 1; ONewSvc 0] = true /\
+  mon_fresh_service_unordered [Accept 0; Accept 1] [ONewSvc 0; ONewSvc 0] = false /\
+  mon_fresh_service_unordered [Accept 0; Accept 1] [ONewSvc 2; ONewSvc 0] = false /\
+  mon_fresh_service_unordered [Accept 0] [ONewSvc 1; ONewSvc 0] = false.
+Proof. vm_compute. repeat split; reflexivity. Qed.
+
+Example mon_assigner_call_sensitive :
+  mon_assigner_call [] [OAssigner 0 true] = false /\
+  mon_assigner_call [] [ONewSvc 0; OAssigner 0 true; OAssigner 0 true] = false /\
+  mon_assigner_call [] [ONewSvc 0; OAssigner 0 false; OAssigner 0 true] = false /\
+  mon_assigner_call [] [ONewSvc 0; OAssigner 0 false; OCall 0 0] = false /\
+  mon_assigner_call [] [ONewSvc 0; OAssigner 0 true; ONewSvc 1; OCall 1 1] = false /\
+  mon_assigner_call [] [ONewSvc 0; OAssigner 0 true; OFinish 0 0 StClosed; OCall 0 0] = false.
+Proof. vm_compute. repeat split; reflexivity. Qed.
